@@ -270,6 +270,46 @@ def _cutoff(repo, out):
           "fh property: raise if unset, else self._fh")
 
 
+def _set_fh(repo, out):
+    """_OptionalForecastingHorizonMixin._set_fh as a whole function body (symbolic evaluator of
+    translator/naive_c11.py), once per None-ness of the argument and of the remembered horizon:
+    `new` = the horizon check_fh returns for the argument (None = no argument)"""
+    from .naive_c11 import Ev, V, B
+    with open(os.path.join(repo, "sktime/forecasting/base/_sktime.py")) as f:
+        mod = ast.parse(f.read())
+    cls = find(mod, "_OptionalForecastingHorizonMixin")
+    fn = find(cls, "_set_fh")
+    _need(argnames(fn) == ["self", "fh"] and not fn.decorator_list, "_set_fh signature")
+    arms = []
+    for new_none in (True, False):
+        sub = []
+        for old_none in (True, False):
+            ev = Ev(cls=cls, mod=None)
+            env = {"fh": V("NONE") if new_none else V("L", "l"), "self": V("SELF"),
+                   "self._fh": V("NONE") if old_none else V("L", "old_l"),
+                   "self.is_fitted": B(coq="is_fitted")}
+
+            def result(env2):
+                v = env2["self._fh"]
+                _need(v.kind in ("NONE", "L"), "_fh kind after _set_fh")
+                return "(Ok None)" if v.kind == "NONE" else "(Ok (Some %s))" % v.coq
+            sub.append(ev.run(body_of(fn), env, lambda v, e2: (_need(v.kind == "NONE", "_set_fh returns a value"),
+                                                               result(e2))[1], result))
+        arms.append("  | %s => match old with None => %s | Some old_l => %s end"
+                    % ("None" if new_none else "Some l", sub[0], sub[1]))
+    out.append("(* _OptionalForecastingHorizonMixin._set_fh: the remembered horizon afterwards, Err = ValueError;\n"
+               "   new = check_fh(argument), None = no argument *)\n"
+               "Definition gen_set_fh_optional (is_fitted : bool) (old new : option (list Z)) : res (option (list Z)) :=\n"
+               "  match new with\n%s\n  end.\n" % "\n".join(arms))
+    # is_fitted is the plain flag fit sets
+    with open(os.path.join(repo, "sktime/base/_base.py")) as f:
+        be = find(ast.parse(f.read()), "BaseEstimator")
+    from . import canon_c11 as C
+    pf = find(be, "is_fitted")
+    _need([_u(d) for d in pf.decorator_list] == ["property"] and C.show(C.of(pf)) == "RET(self._is_fitted)",
+          "is_fitted property returns self._is_fitted")
+
+
 HEADER = """(* GENERATED by translator/sites_c03.py from sktime/forecasting (base/_sktime.py and every file in
    the scope of C03) -- do not edit, never committed. *)
 From Coq Require Import ZArith List Bool.
@@ -283,6 +323,7 @@ Open Scope Z_scope.
 def translate(repo):
     out = [HEADER]
     _cutoff(repo, out)
+    _set_fh(repo, out)
     _index_sites(repo, out)
     return {"C03/Site.v": "\n".join(out)}
 
